@@ -4,3 +4,4 @@ POSTCONDITION TraceAccepted
 CHECK_DEADLOCK FALSE
 INVARIANTS
   Triage
+  TriageConf
